@@ -405,3 +405,66 @@ Theorem command_failure_is_contained g hs1 h hs2 st tr st1 tr1 st2 tr2 :
 Proof. intros H1 H2. rewrite run_all_app, H1. cbn [run_all]. now rewrite H2. Qed.
 
 End Spec.
+
+(* ------------------------------------------------------------------------------------------ *)
+(* acyclic programs terminate: if every lifecycle handler of an item only modifies items of lower rank, every
+   handler runs to completion (or failure) - there is no endless cascade *)
+Section Termination.
+Variable lc : lifecycle.
+Variable rank : item -> nat.
+
+Fixpoint modifies_below (r : nat) (h : handler) : Prop :=
+  match h with
+  | HSetV l _ => (rank (IVal l) < r)%nat
+  | HCopy _ dst _ => (rank (IVal dst) < r)%nat
+  | HUpdM l _ _ | HRemM l _ | HClrM l => (rank (IMap l) < r)%nat
+  | HSeq a b | HThen a b => modifies_below r a /\ modifies_below r b
+  | _ => True
+  end.
+
+Definition stratified : Prop :=
+  forall l,
+    modifies_below (rank (IVal l)) (lc_event lc l) /\ modifies_below (rank (IVal l)) (lc_set lc l) /\
+    modifies_below (rank (IMap l)) (lc_update lc l) /\ modifies_below (rank (IMap l)) (lc_remove lc l) /\
+    modifies_below (rank (IMap l)) (lc_clear lc l).
+
+Lemma item_event_below st it c st' : stratified -> item_event lc st it = (Some c, st') -> modifies_below (rank it) c.
+Proof.
+  intros Hs H. destruct it as [l|l]; cbn [item_event] in H.
+  - injection H as <- _. destruct (Hs l) as (H1 & H2 & _). cbn [modifies_below]. tauto.
+  - destruct (m_prev (mget st l)) as [[k old|k old|old]|]; [| | |discriminate]; injection H as <- _;
+      destruct (Hs l) as (_ & _ & H3 & H4 & H5); cbn [modifies_below]; tauto.
+Qed.
+
+Theorem acyclic_programs_terminate : stratified ->
+  forall r h, modifies_below r h -> forall st tr, exists f res, eval f lc h st tr = Some res.
+Proof.
+  intros Hs r. induction r as [r IHr] using lt_wf_ind.
+  (* a modification of an item of rank below r *)
+  assert (Hmod : forall it st1 tr, (rank it < r)%nat ->
+            exists f res, conseq (eval f lc) lc (Some it) st1 tr = Some res).
+  { intros it st1 tr Hlt. unfold conseq. destruct (item_event lc st1 it) as [[c|] st2] eqn:Ei.
+    - destruct (IHr _ Hlt c (item_event_below _ _ _ _ Hs Ei) st2 tr) as (f & res & Hf). now exists f, res.
+    - exists O. eauto. }
+  induction h as [| e | | l v | l | src dst d | l k v | l k | l | l k | a IHa b IHb | a IHa b IHb]; intros Hb st tr.
+  - exists 1%nat. eexists. reflexivity.
+  - exists 1%nat. eexists. reflexivity.
+  - exists 1%nat. eexists. reflexivity.
+  - destruct (Hmod (IVal l) (do_set st l v) tr Hb) as (f & res & Hf). exists (S f), res. exact Hf.
+  - exists 1%nat. eexists. reflexivity.
+  - destruct (Hmod (IVal dst) (do_set st dst (v_content (vget st src) + d)%Z) tr Hb) as (f & res & Hf). exists (S f), res. exact Hf.
+  - destruct (Hmod (IMap l) (do_update st l k v) tr Hb) as (f & res & Hf). exists (S f), res. exact Hf.
+  - destruct (Hmod (IMap l) (do_remove st l k) tr Hb) as (f & res & Hf). exists (S f), res. exact Hf.
+  - destruct (Hmod (IMap l) (do_clear st l) tr Hb) as (f & res & Hf). exists (S f), res. exact Hf.
+  - exists 1%nat. eexists. reflexivity.
+  - destruct Hb as [Ha Hb]. destruct (IHa Ha st tr) as (fa & [[oa st1] tr1] & Hfa). destruct oa.
+    + destruct (IHb Hb st1 tr1) as (fb & rb & Hfb). exists (S (fa + fb)), rb. cbn [eval].
+      rewrite (eval_mono lc _ _ _ _ _ Hfa fb). apply (eval_mono_le lc fb); [exact Hfb|lia].
+    + exists (S fa). eexists. cbn [eval]. rewrite Hfa. reflexivity.
+  - destruct Hb as [Ha Hb]. destruct (IHa Ha st tr) as (fa & [[oa st1] tr1] & Hfa). destruct oa.
+    + destruct (IHb Hb st1 tr1) as (fb & rb & Hfb). exists (S (fa + fb)), rb. cbn [eval].
+      rewrite (eval_mono lc _ _ _ _ _ Hfa fb). apply (eval_mono_le lc fb); [exact Hfb|lia].
+    + exists (S fa). eexists. cbn [eval]. rewrite Hfa. reflexivity.
+Qed.
+
+End Termination.
